@@ -161,7 +161,7 @@ fn recv_rows(out: &EngineOutput, rows: &mut Vec<Vec<u64>>) -> Vec<u8> {
 }
 
 struct Item {
-  kind: u64, // 0 record, 1 raw (outside the record layer)
+  kind: u64, // 0 one record, 1 raw (outside the record layer)
   bytes: Vec<u8>,
 }
 
@@ -221,8 +221,23 @@ fn run_flow(c: &Value) -> Value {
             let found = needle.iter().any(|n| find(&w, n));
             clear |= found;
             if kind == 0 {
-              let prefix = ((w[0] as u64) << 8) | w[1] as u64;
-              rows.push(vec![10, prefix, w.len() as u64 - 2, pt_len(&groups), found as u64]);
+              // one write call = one or more length-prefixed records: walk the prefixes
+              let mut row = vec![10, w.len() as u64, pt_len(&groups), found as u64];
+              let mut pos = 0usize;
+              while pos + 2 <= w.len() {
+                let l = ((w[pos] as usize) << 8) | w[pos + 1] as usize;
+                if pos + 2 + l > w.len() {
+                  break;
+                }
+                row.push(l as u64);
+                items.push(Item { kind, bytes: w[pos..pos + 2 + l].to_vec() });
+                pos += 2 + l;
+              }
+              if pos < w.len() {
+                row.push(999999);
+                items.push(Item { kind, bytes: w[pos..].to_vec() });
+              }
+              rows.push(row);
               let msgs: Vec<Value> =
                 groups.iter().map(|g| json!(g.iter().map(|m| msg_row(m)).collect::<Vec<_>>())).collect();
               sent_msgs.push(json!(msgs));
@@ -231,8 +246,8 @@ fn run_flow(c: &Value) -> Value {
               row.extend(digest(&w));
               rows.push(row);
               sent_msgs.push(Value::Null);
+              items.push(Item { kind, bytes: w });
             }
-            items.push(Item { kind, bytes: w });
           }
         }
       }
